@@ -8,34 +8,16 @@
 -/
 import Placement.Gen.Policies
 import Placement.Lemmas.Policy
+import Placement.Lemmas.C16Tables
 
 namespace Placement.Props.C16
 open Placement.Policy Placement.Gen.Policies
 
-/-- The version document (`GET /`, also routed under the empty path) is the only handler without a rule. -/
-def home : Name := n!"root.home"
+/-! `home` (the version document's handler), `isReshaper`, `isTotalUsages`, `projectScoped`, `documentedRules`,
+`documentedUnder` are defined in `Lemmas/C16Tables.lean`. -/
 
-/-! ## What the property text says the defaults are (this tree: new defaults only, scope enforced) -/
-
-def adminOrService : Check := .or (.role n!"admin") (.role n!"service")
-def serviceOnly : Check := .role n!"service"
-def adminServiceOrProjectReader : Check :=
-  .or adminOrService (.and (.role n!"reader") (.generic n!"project_id" (.target n!"project_id")))
-
-def isReshaper (r : Route) : Bool := r.method == n!"POST" && r.path == n!"/reshaper"
-def isTotalUsages (r : Route) : Bool := r.method == n!"GET" && r.path == n!"/usages"
-
-/-- Expected default check of an operation, as a reference-free check. -/
-def specCheck (r : Route) : Check :=
-  if isReshaper r then serviceOnly
-  else if isTotalUsages r then adminServiceOrProjectReader
-  else adminOrService
-
-/-- Expected target of an operation: the queried project for `GET /usages`, the caller's own otherwise. -/
-def specTarget (r : Route) : TargetSpec :=
-  if isTotalUsages r then .queryParam n!"project_id" else .default
-
-/-- The same in words: who may use operation `r` under the default policy. -/
+/-- Who may use operation `r` under the default policy, according to the property text
+(this tree: new defaults only, token scope enforced by oslo.policy). -/
 def Allowed (r : Route) (c : Creds) (query : Query) : Prop :=
   tokenScope c = n!"project" ∧
     if isReshaper r then hasRole c n!"service" = true
@@ -44,31 +26,7 @@ def Allowed (r : Route) (c : Creds) (query : Query) : Prop :=
         (hasRole c n!"reader" = true ∧ pyStr (query.lookup n!"project_id") = pyStr c.projectId)
     else hasRole c n!"admin" = true ∨ hasRole c n!"service" = true
 
-/-! ## Finite part: every routed operation, checked against the generated tables by evaluation -/
-
-def defaultRules : Rules := table.effectiveRules []
-
-/-- Operation `r` has a registered project-scoped rule whose inlined default is equivalent to `specCheck r`
-and builds its target as `specTarget r`. -/
-def opMatchesSpec (r : Route) : Bool :=
-  match pipeline.opInfo r with
-  | none => false
-  | some (rule, tgt) =>
-    match table.find rule with
-    | none => false
-    | some d =>
-      d.scopeTypes == [n!"project"] && tgt == specTarget r &&
-        equivChecks (inlineRule defaultRules (fuelFor defaultRules) rule) (specCheck r)
-
-theorem ops_match_spec : ∀ r ∈ routes, r.handler ≠ home → opMatchesSpec r = true := by decide +kernel
-
-/-- No cyclic `rule:` references: the fuel of the evaluator is never exhausted. -/
-theorem fuel_sufficient : fuelSufficient defaultRules = true := by decide +kernel
-
 /-! ## defaults_admin_or_service -/
-
-theorem scopeOk_project (c : Creds) : scopeOk [n!"project"] c = true ↔ tokenScope c = n!"project" := by
-  simp [scopeOk]
 
 /-- Under the default policy an operation is authorised exactly for project-scoped callers holding the
 admin or the service role; `POST /reshaper` for the service role only; `GET /usages` additionally for a
@@ -120,6 +78,9 @@ example : pipeline.authorisedOp [] ⟨n!"/usages", n!"GET", n!"usage.get_total_u
 example : pipeline.authorisedOp [] ⟨n!"/reshaper", n!"POST", n!"reshaper.reshape"⟩
     { userId := some "u", projectId := some "p", roles := ["admin"] } [] = false := by decide +kernel
 
+/-- The hypotheses are satisfiable: there are routed operations other than the version document. -/
+example : ∃ r ∈ routes, r.handler ≠ home := by decide +kernel
+
 /-! ## rule_per_operation -/
 
 /-- Every routed handler other than the version document has exactly one rule: all its definitions pass
@@ -143,33 +104,6 @@ theorem documented_operations_routed :
     (∀ h ∈ handlers, h.rule = none → h.name = home) := by decide +kernel
 
 /-! ## override_exactly -/
-
-def projectScoped (c : Creds) : Bool := decide (tokenScope c = n!"project")
-
-/-- Rules that document operations (the five generic rules of `policies/base.py` document none). -/
-def documentedRules : List RuleDef := ruleDefs.filter (fun d => !d.ops.isEmpty)
-
-def documentedUnder (d : RuleDef) (r : Route) : Bool := d.ops.contains (r.method, r.path)
-
-def overrideOk (d : RuleDef) (x : Check) (r : Route) : Bool :=
-  match pipeline.opInfo r with
-  | none => false
-  | some (rule, _) =>
-    if documentedUnder d r then
-      rule == d.name && ((table.find rule).map (·.scopeTypes) == some [n!"project"])
-    else
-      inlineRule (table.effectiveRules [(d.name, x)]) (fuelFor (table.effectiveRules [(d.name, x)])) rule
-        == inlineRule defaultRules (fuelFor defaultRules) rule
-
-theorem overrides_ok :
-    ∀ d ∈ documentedRules, ∀ x ∈ [Check.tt, Check.ff], ∀ r ∈ routes, r.handler ≠ home →
-      overrideOk d x r = true := by decide +kernel
-
-theorem evalRule_override_self (name : Name) (x : Check) (rest : Rules) (c : Creds) (t : Target)
-    (hx : x = .tt ∨ x = .ff) : evalRule ((name, x) :: rest) name c t = (x == .tt) := by
-  unfold evalRule fuelFor
-  simp only [List.length_cons, ruleVal, List.lookup, beq_self_eq_true]
-  rcases hx with rfl | rfl <;> simp [evalWith]
 
 /-- A policy file that replaces exactly the rule `d` by `@` (or `!`) grants (refuses) every project-scoped
 caller exactly the operations documented under `d`, and leaves the verdict of every other operation
@@ -220,6 +154,10 @@ theorem override_exactly (d : RuleDef) (hd : d ∈ documentedRules) (x : Check) 
       cases hf : pipeline.table.find rule with
       | none => rfl
       | some d' => simp only []; rw [hval]
+
+/-- The hypotheses are satisfiable: there are documented rules, each with a routed operation. -/
+example : ∀ d ∈ documentedRules, ∃ r ∈ routes, r.handler ≠ home ∧ documentedUnder d r = true := by decide +kernel
+example : documentedRules.length = 33 := by decide +kernel
 
 /-- The override really changes the operations documented under the rule: a caller without roles is
 refused by default and admitted by `@`; a service caller is admitted by default and refused by `!`. -/
@@ -292,6 +230,10 @@ theorem unauthorised_forbidden (file : Rules) (r : Route) (path : Name) (h : Aut
     show path ∉ [n!"/"]
     simp [hp]
   simp [Pipeline.respond, hex, hc, hno]
+
+/-- The hypotheses are satisfiable: every request with a token has credentials, and there are callers
+that are not authorised (see the examples after `defaults_admin_or_service`). -/
+example (tok : String) : ∃ c, noauthCreds { token := some tok } = some c := ⟨_, rfl⟩
 
 /-! ## no_token_401 -/
 
